@@ -198,7 +198,7 @@ def run(case, ctx, rng):
         if r < 3:
             return
         ctx.cls((b, r, 'duplex', case['ncalls']))
-        h = Keccak(b=b, r=r)
+        h = Keccak(b=b, r=r) if case['ncalls'] % 3 == 0 else Keccak(b=b, r=r, len=[8, 64, r + 8][case['ncalls'] % 3])
         D = rk.Duplex(b, r)
         hist = []
         for i in range(case['ncalls']):
@@ -211,6 +211,15 @@ def run(case, ctx, rng):
             hist.append((L, ol))
             if not ctx.eq('duplex==reference', got, want, b=b, r=r, history=hist, M=M):
                 break
+            if (i + case['ncalls']) % 2 == 0 and r >= 8:
+                # the same object used as a plain sponge between two duplex calls (also with a per-call rate, also refused):
+                # the duplex session goes on as if nothing had happened, and the sponge output is the reference's
+                Ms = rng.randbytes(rng.choice([0, 3, r // 8 + 1]))
+                gs = call(lambda: h(Ms))
+                hist.append('sponge call')
+                if h.outlen:
+                    ctx.eq('sponge==reference', gs, rk.bits2bytes(rk.sponge(b, r, rk.bytes2bits_nist(Ms, 8 * len(Ms)), h.outlen)), b=b, r=r, between='duplex calls', history=list(hist))
+                call(lambda: h(Ms, bitlen=8 * len(Ms) + 9))
     elif k == 'sha3':
         from crysp.sha import SHA3
         n, l = case['n'], case['len']
